@@ -101,6 +101,8 @@ type World struct {
 	Events  uint64
 	CapHit  bool
 	PortDev map[messaging.RemotePort][2]int
+	// ExtReg: the foreign registrar of BuildOn
+	ExtReg modeling.Registrar
 	// Bare: run without the event-cap hook on the engine (C33's unobserved baseline)
 	Bare bool
 	// table handles for generic networks (one per switch, in index order)
@@ -257,7 +259,21 @@ type capStop struct{}
 // Build constructs the network and its devices.
 func Build(c *Net) *World {
 	w := Build0(c)
-	freq := timing.Freq(c.FreqHz)
+	w.build(timing.Freq(c.FreqHz))
+
+	return w
+}
+
+func (w *World) reg() modeling.Registrar {
+	if w.ExtReg != nil {
+		return w.ExtReg
+	}
+
+	return w.Reg
+}
+
+func (w *World) build(freq timing.Freq) {
+	c := w.C
 
 	switch c.Kind {
 	case "generic":
@@ -271,6 +287,21 @@ func Build(c *Net) *World {
 	default:
 		panic(kit.HarnessError("unknown network kind " + c.Kind))
 	}
+}
+
+// BuildOn builds the network of the configuration on a foreign registrar (a real
+// simulation.Simulation); the devices are supplied by the caller, as the ports of
+// device i (named "Dev[i].Port<p>").
+func BuildOn(reg modeling.Registrar, c *Net, devPorts func(i int) []messaging.Port) *World {
+	w := &World{C: c, Eng: reg.GetEngine().(*timing.SerialEngine), Sent: map[uint64]int{}, PortDev: map[messaging.RemotePort][2]int{}}
+	w.ExtReg = reg
+
+	for i := range c.Devs {
+		d := &device{w: w, idx: i, cfg: &c.Devs[i], ports: devPorts(i)}
+		w.Devs = append(w.Devs, d)
+	}
+
+	w.build(timing.Freq(c.FreqHz))
 
 	return w
 }
@@ -359,12 +390,12 @@ func (w *World) GenericOn(conn *networkconnector.Connector, name string) []routi
 }
 
 func (w *World) buildGeneric(freq timing.Freq) {
-	conn := networkconnector.MakeConnector().WithRegistrar(w.Reg).WithDefaultFreq(freq).WithFlitSize(w.C.FlitSize)
+	conn := networkconnector.MakeConnector().WithRegistrar(w.reg()).WithDefaultFreq(freq).WithFlitSize(w.C.FlitSize)
 	w.Tables = w.GenericOn(&conn, "Net")
 }
 
 func (w *World) buildMesh(freq timing.Freq) {
-	conn := mesh.NewConnector().WithRegistrar(w.Reg).WithFreq(freq).WithFlitSize(w.C.FlitSize).WithSwitchLatency(w.C.SwLat).WithBandwidth(w.C.MeshBW)
+	conn := mesh.NewConnector().WithRegistrar(w.reg()).WithFreq(freq).WithFlitSize(w.C.FlitSize).WithSwitchLatency(w.C.SwLat).WithBandwidth(w.C.MeshBW)
 	conn.CreateNetwork("Mesh")
 
 	for i, d := range w.Devs {
@@ -375,7 +406,7 @@ func (w *World) buildMesh(freq timing.Freq) {
 }
 
 func (w *World) buildPCIe(freq timing.Freq) {
-	conn := pcie.NewConnector().WithRegistrar(w.Reg).WithFrequency(freq).WithVersion(4, 16).WithSwitchLatency(w.C.SwLat)
+	conn := pcie.NewConnector().WithRegistrar(w.reg()).WithFrequency(freq).WithVersion(4, 16).WithSwitchLatency(w.C.SwLat)
 	conn.CreateNetwork("PCIe")
 
 	// device 0 is the root-complex device; Links are [parent, child] with child == next switch id
@@ -393,7 +424,7 @@ func (w *World) buildPCIe(freq timing.Freq) {
 }
 
 func (w *World) buildNVLink(freq timing.Freq) {
-	conn := nvlink.NewConnector().WithRegistrar(w.Reg).WithFrequency(freq).WithPCIeVersion(3, 16)
+	conn := nvlink.NewConnector().WithRegistrar(w.reg()).WithFrequency(freq).WithPCIeVersion(3, 16)
 	conn.CreateNetwork("Network")
 
 	root := conn.AddRootComplex(w.Devs[0].ports)
